@@ -40,7 +40,19 @@ func traceRun(i int, hash, steps uint64, extra string) {
 // poolMain prints the outcome of every pool program on every back end (debug aid).
 func poolMain() {
 	rec := &recorder{}
-	for _, p := range progPool {
+	pool := append([]Prog{}, progPool...)
+	pool = append(pool, c13Extra...)
+	for _, src := range genericSrcs {
+		for _, env := range genericEnvs {
+			pool = append(pool, Prog{src, env, false, true})
+		}
+	}
+	for _, src := range genericUserSrcs {
+		for _, env := range genericEnvs {
+			pool = append(pool, Prog{src, env, true, true})
+		}
+	}
+	for _, p := range pool {
 		line := fmt.Sprintf("%-90q %-7s", p.Src, p.Env)
 		for _, be := range backends {
 			e := buildEngine(EngineSpec{be, true}, func() *recorder { return rec })
